@@ -412,6 +412,12 @@ func c13Hostile(c *vf.Ctx) {
 			a = a[:600+r.Intn(len(a)-600)]
 		}
 		in, kind := vf.Mutate(r, a, b)
+		if r.Intn(40) == 0 {
+			// what an HTTP server answers when it has nothing to say: a few bytes of white space, a lone token
+			in = []byte([]string{"\n", " ", "\r\n", "\t", "  \n", "\n\n\n", "null", "{", "[", "\"", "\xef\xbb\xbf", "{}", "[]", "\x00", "\xa0", "\x80", "\xff"}[r.Intn(17)])
+			kind = "blank-or-lone-token"
+			c.Inc("hostile_blank_or_lone_token_inputs")
+		}
 		c.Cur(sub, i, fmt.Sprintf("%s codec=%#x ad=%v %s", kind, codec, isAd, hex.EncodeToString(in)))
 		wit := func() any {
 			return map[string]any{"input_hex": hex.EncodeToString(in), "codec": fmt.Sprintf("%#x", codec), "as_advertisement": isAd, "mutation": kind}
